@@ -360,7 +360,8 @@ protected:
 		size_t pos = static_cast<size_t>(egptr() - mData.data());
 		if (pos >= mData.size()) return traits_type::eof();
 		size_t n = std::min(mStep, mData.size() - pos);
-		setg(mData.data() + pos, mData.data() + pos, mData.data() + pos + n);   // eback == gptr: no putback, no seeking back
+		size_t back = std::min<size_t>(pos, 16);   // small putback area like a real pipe / socket buffer, but no seeking
+		setg(mData.data() + pos - back, mData.data() + pos, mData.data() + pos + n);
 		return traits_type::to_int_type(*gptr());
 	}
 	pos_type seekoff(off_type, std::ios_base::seekdir, std::ios_base::openmode) override { return pos_type(off_type(-1)); }
